@@ -87,7 +87,7 @@ def main():
     native.build()
     I = engine.make_interp()
     rx = relang.regex_of_static(I, 'SEMVER_REGEX')
-    ck.load_alphabet([rx.pattern, c08.SPEC_PATTERN], char_ops=[])
+    ck.load_alphabet([rx.pattern, c08.SPEC_PATTERN], char_ops=['alnum', 'lower', 'ws', 'width'])
     # ---------------- relang: unbounded language inclusion
     t0 = time.time()
     impl = relang.hir_to_re(rx.hir)
